@@ -240,3 +240,384 @@ Proof.
   intros H c. subst c. change (fold16 (rep (sum16 a) + rep (sum16 b)) = rep (sum16 (a ++ b))).
   rewrite fold16_rep by apply sum16_nonneg. now rewrite sum16_app.
 Qed.
+
+(* ---- helpers for the compute functions ---------------------------------------------------------- *)
+Lemma uint_bits_ok k n : 0 <= n < 2 ^ Z.of_nat k -> uint_bits k n = Ok (bits_of k n).
+Proof.
+  intros H. unfold uint_bits. destruct (Z.leb_spec 0 n); [|lia]. destruct (Z.ltb_spec n (2 ^ Z.of_nat k)); [|lia].
+  reflexivity.
+Qed.
+
+Lemma py_slice_from' {A} (l : list A) s : 0 <= s -> py_slice l (Some s) None = skipn (Z.to_nat s) l.
+Proof.
+  intros H. destruct (Z_le_gt_dec s (zlen l)); [apply py_slice_from; lia|].
+  unfold py_slice, slice_indices, clamp_index.
+  destruct (Z.ltb_spec s 0); [lia|]. destruct (Z.ltb_spec (zlen l) s); [|lia].
+  rewrite Z.sub_diag. cbn [Z.to_nat firstn]. symmetry. apply skipn_all2. unfold zlen in *. lia.
+Qed.
+
+Lemma nbytes_nonneg b : 0 <= nbytes b.
+Proof. unfold nbytes. pose proof (zlen_nonneg b). apply Z.div_pos; lia. Qed.
+
+Lemma zlen_vals fs : zlen (vals fs) = zlen fs.
+Proof. unfold zlen, vals. now rewrite map_length. Qed.
+Lemma zlen_ids fs : zlen (ids fs) = zlen fs.
+Proof. unfold zlen, ids. now rewrite map_length. Qed.
+
+Lemma reduce_concat_skipn (l : list bits) k : (k < length l)%nat -> reduce_concat (skipn k l) = Ok (concat (skipn k l)).
+Proof. intros H. pose proof (skipn_nonempty l k H). unfold reduce_concat. destruct (skipn k l); [congruence|reflexivity]. Qed.
+
+(* ---- the three lengths ---------------------------------------------------------------------------- *)
+Theorem c09_ipv6_length fs pos : 0 <= pos -> nbytes (concat (skipn (Z.to_nat (pos + 5)) (vals fs))) < 65536 ->
+  ipv6_payload_length fs pos = Ok (bits_of 16 (nbytes (concat (skipn (Z.to_nat (pos + 5)) (vals fs))))).
+Proof.
+  intros Hp Hn. unfold ipv6_payload_length. rewrite py_slice_from' by lia. rewrite byte_len_nbytes.
+  apply uint_bits_ok. change (2 ^ Z.of_nat 16) with 65536. pose proof (nbytes_nonneg (concat (skipn (Z.to_nat (pos + 5)) (vals fs)))). lia.
+Qed.
+
+Theorem c09_udp_length fs pos : 2 <= pos < zlen fs -> nbytes (concat (skipn (Z.to_nat (pos - 2)) (vals fs))) < 65536 ->
+  udp_length fs pos = Ok (bits_of 16 (nbytes (concat (skipn (Z.to_nat (pos - 2)) (vals fs))))).
+Proof.
+  intros Hp Hn. unfold udp_length. rewrite py_slice_from' by lia.
+  rewrite reduce_concat_skipn by (pose proof (zlen_vals fs); unfold zlen in *; lia).
+  cbn [bind]. rewrite byte_len_nbytes.
+  apply uint_bits_ok. change (2 ^ Z.of_nat 16) with 65536. pose proof (nbytes_nonneg (concat (skipn (Z.to_nat (pos - 2)) (vals fs)))). lia.
+Qed.
+
+Ltac Zify.zify_post_hook ::= Z.to_euclidean_division_equations.
+Lemma nbytes_drop4 (a b : bits) : zlen a = 4 -> zlen (a ++ b) mod 8 = 0 -> nbytes b = nbytes (a ++ b).
+Proof. unfold nbytes. rewrite zlen_app. intros Ha Hm. pose proof (zlen_nonneg b). lia. Qed.
+Ltac Zify.zify_post_hook ::= idtac.
+
+Theorem c09_ipv4_length fs pos : 3 <= pos < zlen fs -> zlen (nth (Z.to_nat (pos - 3)) (vals fs) []) = 4 ->
+  let dgram := concat (skipn (Z.to_nat (pos - 3)) (vals fs)) in
+  zlen dgram mod 8 = 0 -> nbytes dgram < 65536 ->
+  ipv4_total_length fs pos = Ok (bits_of 16 (nbytes dgram)).
+Proof.
+  intros Hp H4 dgram Hm Hn. unfold ipv4_total_length. rewrite py_slice_from' by lia. rewrite byte_len_nbytes.
+  assert (dgram = nth (Z.to_nat (pos - 3)) (vals fs) [] ++ concat (skipn (Z.to_nat (pos - 2)) (vals fs))) as E.
+  { unfold dgram. rewrite (skipn_nth_cons (vals fs) []) by (pose proof (zlen_vals fs); unfold zlen in *; lia).
+    cbn [concat]. do 3 f_equal. lia. }
+  rewrite (nbytes_drop4 _ _ H4) by (rewrite <- E; exact Hm). rewrite <- E.
+  apply uint_bits_ok. change (2 ^ Z.of_nat 16) with 65536. pose proof (nbytes_nonneg dgram). lia.
+Qed.
+
+(* ---- IPv4 header checksum ----------------------------------------------------------------------------- *)
+Theorem c09_ipv4_checksum fs pos : 9 <= pos -> pos + 3 <= zlen fs ->
+  let hdr := concat (firstn 12 (skipn (Z.to_nat (pos - 9)) (vals fs))) in
+  (length hdr mod 16 = 0)%nat ->
+  ipv4_checksum fs pos = Ok (bits_of 16 (rfc_ipv4_header_checksum hdr)).
+Proof.
+  intros Hp Hz hdr Hm. unfold ipv4_checksum. cbv zeta.
+  rewrite py_slice_mid by (rewrite ?zlen_vals; lia).
+  replace (Z.to_nat (pos + 3 - (pos - 9))) with 12%nat by lia. fold hdr.
+  rewrite ones_sum_aligned by exact Hm.
+  pose proof (ones_complement_sum_range hdr) as R. rewrite lnot_16 by exact R.
+  unfold rfc_ipv4_header_checksum, inet_checksum. apply uint_bits_ok. change (2 ^ Z.of_nat 16) with 65536. lia.
+Qed.
+
+(* ---- UDP checksum ---------------------------------------------------------------------------------------- *)
+Lemma fid_eqb_iff a b : fid_eqb a b = true <-> a = b.
+Proof.
+  unfold fid_eqb. rewrite andb_true_iff, Z.eqb_eq. destruct a as [pa ia], b as [pb ib]. cbn [fproto fidx].
+  split.
+  - intros [Hp Hi]. subst ib. f_equal. destruct pa, pb; (reflexivity || discriminate).
+  - intros E. injection E as -> ->. split; [destruct pb; reflexivity|reflexivity].
+Qed.
+
+Lemma find_index_spec (p : fid -> bool) d : forall l i k, (k < length l)%nat -> p (nth k l d) = true ->
+  (forall j, (j < k)%nat -> p (nth j l d) = false) -> find_index p l i = Some (i + Z.of_nat k).
+Proof.
+  induction l as [|x l IH]; intros i k Hk Hp Hn; cbn [length] in Hk; [lia|].
+  cbn [find_index]. destruct k as [|k].
+  - cbn [nth] in Hp. rewrite Hp. f_equal. lia.
+  - pose proof (Hn 0%nat ltac:(lia)) as H0. cbn [nth] in H0. rewrite H0. rewrite (IH (i + 1) k); [f_equal; lia|lia|exact Hp|].
+    intros j Hj. apply (Hn (S j)). lia.
+Qed.
+
+(* the reversed identifier list fields_ids[plp:0:-1]: its k-th element is ids[plp - k] *)
+Lemma rev_ids_nth (l : list fid) d n k : (n < length l)%nat -> (k < n)%nat ->
+  nth k (rev (skipn 1 (firstn (n + 1) l))) d = nth (n - k) l d.
+Proof.
+  intros Hn Hk.
+  assert (length (skipn 1 (firstn (n + 1) l)) = n) as L by (rewrite skipn_length, firstn_length; lia).
+  rewrite rev_nth by lia. rewrite L, nth_skipn', nth_firstn' by lia. f_equal. lia.
+Qed.
+
+Lemma find_src (l : list fid) (SRC : fid) plp sp : 0 <= plp < zlen l -> 1 <= sp <= plp ->
+  nth (Z.to_nat sp) l payload_fid = SRC ->
+  (forall j, sp < j <= plp -> nth (Z.to_nat j) l payload_fid <> SRC) ->
+  find_index (fid_eqb SRC) (rev (skipn 1 (firstn (Z.to_nat (plp + 1)) l))) 0 = Some (plp - sp).
+Proof.
+  intros Hp Hs Hsrc Hno. unfold zlen in Hp.
+  replace (Z.to_nat (plp + 1)) with (Z.to_nat plp + 1)%nat by lia.
+  rewrite (find_index_spec _ payload_fid _ 0 (Z.to_nat (plp - sp))).
+  - f_equal. lia.
+  - rewrite rev_length, skipn_length, firstn_length. lia.
+  - rewrite rev_ids_nth by lia. apply fid_eqb_iff. rewrite <- Hsrc. f_equal. lia.
+  - intros j Hj. rewrite rev_ids_nth by lia.
+    destruct (fid_eqb SRC (nth (Z.to_nat plp - j) l payload_fid)) eqn:E; [|reflexivity].
+    apply fid_eqb_iff in E. exfalso. apply (Hno (plp - Z.of_nat j)); [lia|].
+    rewrite E. f_equal. lia.
+Qed.
+
+Lemma udp_final pseudo udp : (length pseudo mod 16 = 0)%nat ->
+  let s1 := ones_sum (chunks 16 false pseudo) in
+  let s2 := ones_sum (chunks 16 true udp) in
+  let c := s1 + s2 in
+  let c := Z.land (c + Z.shiftr c 16) 65535 in
+  let c := Z.land (Z.lnot c) 65535 in
+  let c := if c =? 0 then 65535 else c in
+  uint_bits 16 c = Ok (bits_of 16 (rfc_udp_checksum pseudo udp)).
+Proof.
+  intros Hm. cbv zeta. rewrite ones_sum_aligned by exact Hm. rewrite ones_sum_padded.
+  rewrite (ones_sum_split pseudo udp Hm).
+  pose proof (ones_complement_sum_range (pseudo ++ udp)) as R. rewrite lnot_16 by exact R.
+  unfold rfc_udp_checksum, inet_checksum. apply uint_bits_ok. change (2 ^ Z.of_nat 16) with 65536.
+  destruct (Z.eqb_spec (65535 - ones_complement_sum (pseudo ++ udp)) 0); lia.
+Qed.
+
+Lemma pseudo_v6_len src dst n : (length src mod 16 = 0)%nat -> (length dst mod 16 = 0)%nat ->
+  (length (pseudo_v6 src dst n) mod 16 = 0)%nat.
+Proof.
+  intros Hs Hd. unfold pseudo_v6. rewrite !app_length, !bits_of_length, repeat_length.
+  apply Nat.mod_divide in Hs, Hd; try lia. destruct Hs as [a Ha], Hd as [b Hb].
+  apply Nat.mod_divide; [lia|]. exists (a + b + 4)%nat. lia.
+Qed.
+
+Lemma pseudo_v4_len src dst n : (length src mod 16 = 0)%nat -> (length dst mod 16 = 0)%nat ->
+  (length (pseudo_v4 src dst n) mod 16 = 0)%nat.
+Proof.
+  intros Hs Hd. unfold pseudo_v4. rewrite !app_length, !bits_of_length, repeat_length.
+  apply Nat.mod_divide in Hs, Hd; try lia. destruct Hs as [a Ha], Hd as [b Hb].
+  apply Nat.mod_divide; [lia|]. exists (a + b + 2)%nat. lia.
+Qed.
+
+Theorem c09_udp_checksum_v6 fs pos sp src dst : 4 <= pos < zlen fs -> 1 <= sp -> sp + 1 <= pos - 4 ->
+  fproto (nth (Z.to_nat (pos - 4)) (ids fs) payload_fid) = P_IPv6 ->
+  nth (Z.to_nat sp) (ids fs) payload_fid = IPV6_SRC_ADDRESS ->
+  (forall j, sp < j <= pos - 4 -> nth (Z.to_nat j) (ids fs) payload_fid <> IPV6_SRC_ADDRESS) ->
+  nth (Z.to_nat sp) (vals fs) [] = src -> nth (Z.to_nat (sp + 1)) (vals fs) [] = dst ->
+  (length src mod 16 = 0)%nat -> (length dst mod 16 = 0)%nat ->
+  let udp := concat (skipn (Z.to_nat (pos - 3)) (vals fs)) in
+  nbytes udp < 2 ^ 32 ->
+  udp_checksum fs pos = Ok (bits_of 16 (rfc_udp_checksum (pseudo_v6 src dst (nbytes udp)) udp)).
+Proof.
+  intros Hp Hs1 Hs2 Hproto Hsrc Hno Es Ed Ls Ld udp Hn.
+  pose proof (zlen_vals fs) as Zv. pose proof (zlen_ids fs) as Zi.
+  unfold udp_checksum. cbv zeta.
+  rewrite (py_index_nth (ids fs) (pos - 4) payload_fid) by lia. cbn [bind].
+  rewrite py_slice_from' by lia.
+  rewrite reduce_concat_skipn by (unfold zlen in *; lia). cbn [bind]. fold udp.
+  destruct (Z.ltb_spec (pos - 4) 0); [lia|].
+  rewrite Hproto.
+  rewrite (find_src (ids fs) IPV6_SRC_ADDRESS (pos - 4) sp) by (auto; lia).
+  replace (pos - 4 - (pos - 4 - sp)) with sp by lia.
+  rewrite (py_index_nth (vals fs) sp []) by lia. cbn [bind].
+  rewrite (py_index_nth (vals fs) (sp + 1) []) by lia. cbn [bind].
+  rewrite Es, Ed, byte_len_nbytes.
+  rewrite uint_bits_ok by (pose proof (nbytes_nonneg udp); change (2 ^ Z.of_nat 32) with (2 ^ 32); lia).
+  cbn [bind]. change (src ++ dst ++ bits_of 32 (nbytes udp) ++ repeat false 24 ++ bits_of 8 17)
+    with (pseudo_v6 src dst (nbytes udp)).
+  apply udp_final. apply pseudo_v6_len; auto.
+Qed.
+
+Theorem c09_udp_checksum_v4 fs pos sp src dst : 4 <= pos < zlen fs -> 1 <= sp -> sp + 1 <= pos - 4 ->
+  fproto (nth (Z.to_nat (pos - 4)) (ids fs) payload_fid) = P_IPv4 ->
+  nth (Z.to_nat sp) (ids fs) payload_fid = IPV4_SRC_ADDRESS ->
+  (forall j, sp < j <= pos - 4 -> nth (Z.to_nat j) (ids fs) payload_fid <> IPV4_SRC_ADDRESS) ->
+  nth (Z.to_nat sp) (vals fs) [] = src -> nth (Z.to_nat (sp + 1)) (vals fs) [] = dst ->
+  (length src mod 16 = 0)%nat -> (length dst mod 16 = 0)%nat ->
+  let udp := concat (skipn (Z.to_nat (pos - 3)) (vals fs)) in
+  nbytes udp < 65536 ->
+  udp_checksum fs pos = Ok (bits_of 16 (rfc_udp_checksum (pseudo_v4 src dst (nbytes udp)) udp)).
+Proof.
+  intros Hp Hs1 Hs2 Hproto Hsrc Hno Es Ed Ls Ld udp Hn.
+  pose proof (zlen_vals fs) as Zv. pose proof (zlen_ids fs) as Zi.
+  unfold udp_checksum. cbv zeta.
+  rewrite (py_index_nth (ids fs) (pos - 4) payload_fid) by lia. cbn [bind].
+  rewrite py_slice_from' by lia.
+  rewrite reduce_concat_skipn by (unfold zlen in *; lia). cbn [bind]. fold udp.
+  destruct (Z.ltb_spec (pos - 4) 0); [lia|].
+  rewrite Hproto.
+  rewrite (find_src (ids fs) IPV4_SRC_ADDRESS (pos - 4) sp) by (auto; lia).
+  replace (pos - 4 - (pos - 4 - sp)) with sp by lia.
+  rewrite (py_index_nth (vals fs) sp []) by lia. cbn [bind].
+  rewrite (py_index_nth (vals fs) (sp + 1) []) by lia. cbn [bind].
+  rewrite Es, Ed, byte_len_nbytes.
+  rewrite uint_bits_ok by (pose proof (nbytes_nonneg udp); change (2 ^ Z.of_nat 16) with 65536; lia).
+  cbn [bind]. change (src ++ dst ++ repeat false 8 ++ bits_of 8 17 ++ bits_of 16 (nbytes udp))
+    with (pseudo_v4 src dst (nbytes udp)).
+  apply udp_final. apply pseudo_v4_len; auto.
+Qed.
+
+(* ---- CRC-32c ------------------------------------------------------------------------------------------------ *)
+Theorem crc_table_correct i : 0 <= i < 256 -> nth (Z.to_nat i) crc32c_table 0 = crc_byte_step 0 i.
+Proof.
+  intros H. apply Z.eqb_eq.
+  apply (sweep_byte (fun i => nth (Z.to_nat i) crc32c_table 0 =? crc_byte_step 0 i)); [vm_compute; reflexivity|lia].
+Qed.
+
+Lemma crc_bit_step_lxor x y : crc_bit_step (Z.lxor x y) = Z.lxor (crc_bit_step x) (crc_bit_step y).
+Proof.
+  unfold crc_bit_step. rewrite Z.shiftr_lxor.
+  assert (Z.odd (Z.lxor x y) = xorb (Z.odd x) (Z.odd y)) as -> by (rewrite <- !Z.bit0_odd; apply Z.lxor_spec).
+  destruct (Z.odd x), (Z.odd y); cbn [xorb]; apply Z.bits_inj'; intros n Hn; rewrite !Z.lxor_spec;
+    destruct (Z.testbit (Z.shiftr x 1) n), (Z.testbit (Z.shiftr y 1) n), (Z.testbit 2197175160 n); reflexivity.
+Qed.
+
+Lemma iter_crc_lxor n : forall x y, iter n crc_bit_step (Z.lxor x y) = Z.lxor (iter n crc_bit_step x) (iter n crc_bit_step y).
+Proof. induction n as [|n IH]; intros x y; cbn [iter]; [reflexivity|]. rewrite crc_bit_step_lxor. apply IH. Qed.
+
+(* n steps on a register whose n low bits are zero just shift it *)
+Lemma iter_crc_shift n : forall h, h mod 2 ^ Z.of_nat n = 0 -> iter n crc_bit_step h = Z.shiftr h (Z.of_nat n).
+Proof.
+  induction n as [|n IH]; intros h H; cbn [iter]; [now rewrite Z.shiftr_0_r|].
+  rewrite Nat2Z.inj_succ, Z.pow_succ_r in H by lia.
+  set (P := 2 ^ Z.of_nat n) in *. assert (0 < P) as HP by (apply Z.pow_pos_nonneg; lia).
+  rewrite Z.rem_mul_r in H by lia.
+  pose proof (Z.mod_pos_bound h 2 ltac:(lia)). pose proof (Z.mod_pos_bound (h / 2) P HP).
+  assert (h mod 2 = 0) as H2 by nia. assert ((h / 2) mod P = 0) as H3 by nia.
+  unfold crc_bit_step. rewrite Zmod_odd in H2. destruct (Z.odd h); [discriminate|].
+  rewrite IH by (rewrite Z.shiftr_div_pow2 by lia; exact H3).
+  rewrite Z.shiftr_shiftr by lia. f_equal. lia.
+Qed.
+
+Lemma lxor_split x : x = Z.lxor (Z.ldiff x 255) (Z.land x 255).
+Proof.
+  apply Z.bits_inj'. intros n Hn. rewrite Z.lxor_spec, Z.ldiff_spec, Z.land_spec.
+  destruct (Z.testbit x n), (Z.testbit 255 n); reflexivity.
+Qed.
+
+Lemma ldiff_low x : Z.ldiff x 255 mod 2 ^ 8 = 0.
+Proof.
+  rewrite <- Z.land_ones by lia. apply Z.bits_inj'. intros n Hn.
+  rewrite Z.land_spec, Z.ldiff_spec, Z.bits_0. change (Z.ones 8) with 255.
+  destruct (Z.testbit x n), (Z.testbit 255 n); reflexivity.
+Qed.
+
+Lemma crc_step_correct' crc c : length c = 8%nat -> crc_step crc c = crc_byte_step crc (Z_of_bits c).
+Proof.
+  intros Hc. pose proof (Z_of_bits_range c) as Hv. rewrite Hc in Hv. change (2 ^ Z.of_nat 8) with 256 in Hv.
+  set (v := Z_of_bits c) in *. unfold crc_step, crc_byte_step. fold v.
+  set (x := Z.lxor crc v).
+  rewrite (lxor_split x) at 2. rewrite iter_crc_lxor. f_equal.
+  - rewrite (iter_crc_shift 8) by apply ldiff_low.
+    change (Z.of_nat 8) with 8. rewrite Z.shiftr_ldiff. change (Z.shiftr 255 8) with 0. rewrite Z.ldiff_0_r.
+    unfold x. rewrite Z.shiftr_lxor. rewrite (Z.shiftr_div_pow2 v) by lia. change (2 ^ 8) with 256.
+    rewrite (Z.div_small v) by lia. now rewrite Z.lxor_0_r.
+  - rewrite crc_table_correct by (rewrite land_255; apply Z.mod_pos_bound; lia).
+    unfold crc_byte_step. now rewrite Z.lxor_0_l.
+Qed.
+
+Theorem crc_step_correct crc c : 0 <= crc < 2 ^ 32 -> length c = 8%nat -> crc_step crc c = crc_byte_step crc (Z_of_bits c).
+Proof. intros _. apply crc_step_correct'. Qed.
+
+Lemma fold_crc_step cs : Forall (fun c => length c = 8%nat) cs -> forall init,
+  fold_left crc_step cs init = fold_left crc_byte_step (map Z_of_bits cs) init.
+Proof.
+  induction 1 as [|c cs Hc F IH]; intros init; cbn [fold_left map]; [reflexivity|].
+  rewrite crc_step_correct' by exact Hc. apply IH.
+Qed.
+
+(* the model of Buffer.chunks yields one (zero) chunk for the empty buffer, so the table-driven loop
+   performs one step on the empty buffer: crc32c [] 0xffffffff = 2911022254 <> 0xffffffff.  The theorem
+   holds for every non-empty buffer. *)
+Lemma crc32c_empty_differs : crc32c [] 4294967295 <> crc32c_register (bytes_of_bits []).
+Proof. vm_compute. discriminate. Qed.
+
+Theorem crc32c_correct b : b <> [] -> crc32c b 4294967295 = crc32c_register (bytes_of_bits b).
+Proof.
+  intros Hb. unfold crc32c, crc32c_register, bytes_of_bits.
+  rewrite fold_crc_step by (apply chunks_true_len; lia). rewrite chunks_words by (auto; lia). reflexivity.
+Qed.
+
+(* registers stay below 2^32 *)
+Lemma lxor_bound n a b : 0 <= n -> 0 <= a < 2 ^ n -> 0 <= b < 2 ^ n -> 0 <= Z.lxor a b < 2 ^ n.
+Proof.
+  intros Hn Ha Hb. assert (Z.lxor a b = Z.lxor a b mod 2 ^ n) as E.
+  { rewrite <- Z.land_ones by lia.
+    rewrite <- (Z.mod_small a (2 ^ n)), <- (Z.mod_small b (2 ^ n)) at 1 by lia.
+    rewrite <- !Z.land_ones by lia. apply Z.bits_inj'. intros i Hi.
+    rewrite !Z.land_spec, !Z.lxor_spec, !Z.land_spec.
+    destruct (Z.testbit a i), (Z.testbit b i), (Z.testbit (Z.ones n) i); reflexivity. }
+  rewrite E. apply Z.mod_pos_bound. apply Z.pow_pos_nonneg; lia.
+Qed.
+
+Lemma crc_bit_step_range x : 0 <= x < 2 ^ 32 -> 0 <= crc_bit_step x < 2 ^ 32.
+Proof.
+  intros H. assert (0 <= Z.shiftr x 1 < 2 ^ 32) as Hs.
+  { rewrite Z.shiftr_div_pow2 by lia. change (2 ^ 1) with 2.
+    pose proof (Z.div_pos x 2).
+    assert (x / 2 <= x) by (apply Z.div_le_upper_bound; lia). lia. }
+  unfold crc_bit_step. destruct (Z.odd x); [|exact Hs].
+  apply lxor_bound; [lia|exact Hs|]. change (2 ^ 32) with 4294967296. lia.
+Qed.
+
+Lemma iter_crc_range n : forall x, 0 <= x < 2 ^ 32 -> 0 <= iter n crc_bit_step x < 2 ^ 32.
+Proof. induction n as [|n IH]; intros x H; cbn [iter]; [exact H|]. apply IH, crc_bit_step_range, H. Qed.
+
+Lemma crc_byte_step_range crc byte : 0 <= crc < 2 ^ 32 -> 0 <= byte < 256 -> 0 <= crc_byte_step crc byte < 2 ^ 32.
+Proof.
+  intros Hc Hb. unfold crc_byte_step. apply iter_crc_range. apply lxor_bound; [lia|exact Hc|].
+  change (2 ^ 32) with 4294967296. lia.
+Qed.
+
+Lemma crc32c_register_range bs : Forall (fun w => 0 <= w < 256) bs -> 0 <= crc32c_register bs < 2 ^ 32.
+Proof.
+  unfold crc32c_register. assert (0 <= 4294967295 < 2 ^ 32) as H0 by (change (2 ^ 32) with 4294967296; lia).
+  revert H0. generalize 4294967295 as r. intros r Hr F. revert r Hr.
+  induction F as [|w l Hw F IH]; intros r Hr; cbn [fold_left]; [exact Hr|].
+  apply IH. apply crc_byte_step_range; auto.
+Qed.
+
+(* ---- SCTP checksum ---------------------------------------------------------------------------------------------- *)
+Lemma negb_bits_32 x : map negb (bits_of 32 x) = bits_of 32 (Z.lxor x 4294967295).
+Proof.
+  rewrite <- bits_of_lnot. apply bits_of_ext. intros i Hi.
+  rewrite Z.lnot_spec, Z.lxor_spec by lia. change 4294967295 with (Z.ones 32).
+  rewrite Z.ones_spec_low by lia. now destruct (Z.testbit x i).
+Qed.
+
+Lemma rev_chunks_32 y : concat (rev (chunks 8 false (bits_of 32 y))) = le32 y.
+Proof.
+  rewrite chunks_gt by (rewrite ?bits_of_length; lia).
+  rewrite (bits_of_skipn 8 32), (bits_of_firstn 8 32) by lia.
+  rewrite chunks_gt by (rewrite ?bits_of_length; lia).
+  rewrite (bits_of_skipn 8 (32 - 8)), (bits_of_firstn 8 (32 - 8)) by lia.
+  rewrite chunks_gt by (rewrite ?bits_of_length; lia).
+  rewrite (bits_of_skipn 8 (32 - 8 - 8)), (bits_of_firstn 8 (32 - 8 - 8)) by lia.
+  rewrite chunks_le by (rewrite ?bits_of_length; lia).
+  cbn [rev app concat]. rewrite app_nil_r. unfold le32.
+  rewrite !Z.shiftr_div_pow2 by lia. reflexivity.
+Qed.
+
+(* if every field from the source port on is empty the model's crc32c performs one step on a zero chunk
+   (see crc32c_empty_differs): the premise pkt <> [] is needed *)
+Theorem c09_sctp_checksum fs pos : 3 <= pos < zlen fs ->
+  let pkt := concat (skipn (Z.to_nat (pos - 3)) (vals fs)) in
+  pkt <> [] ->
+  sctp_checksum fs pos = Ok (rfc_sctp_checksum_field pkt).
+Proof.
+  intros Hp pkt Hne. pose proof (zlen_vals fs) as Zv.
+  unfold sctp_checksum. rewrite py_slice_from' by lia.
+  rewrite reduce_concat_skipn by (unfold zlen in *; lia). cbn [bind]. fold pkt.
+  rewrite crc32c_correct by exact Hne.
+  pose proof (crc32c_register_range (bytes_of_bits pkt) (words_range 8 pkt)) as R.
+  rewrite uint_bits_ok by exact R. cbn [bind].
+  rewrite negb_bits_32, rev_chunks_32. reflexivity.
+Qed.
+
+(* witness for the added premise: four empty fields from the source port on *)
+Lemma sctp_empty_differs : let f := mkfid P_SCTP 0 in let fs := [(f, []); (f, []); (f, []); (f, [])] in
+  sctp_checksum fs 3 <> Ok (rfc_sctp_checksum_field (concat (skipn (Z.to_nat (3 - 3)) (vals fs)))).
+Proof. vm_compute. discriminate. Qed.
+
+(* ---- sanity of the RFC-side definitions on published test vectors ------------------------------------------------- *)
+(* CRC-32c check value of the ASCII string "123456789" is 0xE3069283 *)
+Example crc32c_check_value : crc32c_value [49; 50; 51; 52; 53; 54; 55; 56; 57] = 3808858755.
+Proof. vm_compute. reflexivity. Qed.
+(* the IPv4 header 4500 0073 0000 4000 4011 (0000) c0a8 0001 c0a8 00c7 has checksum 0xb861 *)
+Example ipv4_header_check_value :
+  rfc_ipv4_header_checksum (concat (map (bits_of 16) [17664; 115; 0; 16384; 16401; 0; 49320; 1; 49320; 199])) = 47201.
+Proof. vm_compute. reflexivity. Qed.
